@@ -422,7 +422,7 @@ class VerifyAttrs(object):
                 raise RuntimeError("charlen attribute must have a value")
 
         if (
-            options.F_CFI is False and
+            not options.F_CFI and
             intent == "in" and
             is_ptr == 1 and
             arg_typemap.name == "char"):
@@ -1405,7 +1405,7 @@ class GenFunctions(object):
         options = node.options
         fmt_func = node.fmtdict
 
-        if options.wrap_fortran is False:
+        if not options.wrap_fortran:
             # The buffer function is intended to be called by Fortran.
             # No Fortran, no need for buffer function.
             return
@@ -1550,7 +1550,7 @@ class GenFunctions(object):
         options = node.options
         fmt_func = node.fmtdict
 
-        if node.wrap.c is False:
+        if not node.wrap.c:
             # The user does not require a C wrapper.
             # This can be the case if the Fortran wrapper is doing all
             # the work via splicer or fstatements.
@@ -1582,11 +1582,11 @@ class GenFunctions(object):
                 )
             )
 
-        if node.wrap.fortran is False:
+        if not node.wrap.fortran:
             # The buffer function is intended to be called by Fortran.
             # No Fortran, no need for buffer function.
             return
-        if options.F_string_len_trim is False:  # XXX what about vector?
+        if not options.F_string_len_trim:  # XXX what about vector?
             return
 
         # Arguments.
